@@ -165,10 +165,32 @@ impl Prop for C11 {
                 workers: 8,
                 build: Build::Normal,
             },
+            Leg {
+                name: "huge",
+                kind: LegKind::Random {
+                    cases: tier.pick(2, 16),
+                },
+                workers: 16,
+                build: Build::Normal,
+            },
         ]
     }
 
-    fn strategy(_leg: &str, tier: Tier) -> BoxedStrategy<Case> {
+    fn strategy(leg: &str, tier: Tier) -> BoxedStrategy<Case> {
+        if leg == "huge" {
+            // orders 200..900 (complement is quadratic), wide rows included
+            return (gen::huge_dg(), gen::huge_dg(), 1..=16_usize, any::<u64>())
+                .prop_map(|((mut a, fa), (mut b, fb), cpus, bits)| {
+                    for g in [&mut a, &mut b] {
+                        g.order = g.order.min(900);
+                        let n = g.order;
+                        g.arcs.retain(|&(u, v)| u < n && v < n);
+                    }
+                    let keep: Vec<usize> = (0..a.order).filter(|i| (bits >> (i % 64)) & 1 == 1 || *i == 0).collect();
+                    Case { a: G::Contiguous(a), b: G::Contiguous(b), keep, cpus, family: format!("{fa}+{fb}") }
+                })
+                .boxed();
+        }
         let max = tier.pick(40, 100);
         let contiguous = (
             gen::raw_dg_big(max),
